@@ -297,7 +297,8 @@ def render_kids(kids, ch, scope_stack, toks):
             if data is None:
                 toks.append(tok("pi", [part("lit", "<?"), part("pitarget", target), part("lit", "?>")], ln=target, v=[], hasdata=False))
             else:
-                toks.append(tok("pi", [part("lit", "<?"), part("pitarget", target), part("lit", " "), part("pidata", data), part("lit", "?>")],
+                sep = [" ", " ", "  ", "\n ", "\t", " \r\n  "][ch.pick(6, "pisep")]       # any white space separates target and data
+                toks.append(tok("pi", [part("lit", "<?"), part("pitarget", target), part("lit", sep), part("pidata", data), part("lit", "?>")],
                                 ln=target, v=list(data), hasdata=True))
 
 
@@ -429,7 +430,8 @@ def rand_comment(rnd):
 
 
 def rand_pi(rnd):
-    target = rnd.choice(["pa", "pb"])
+    # targets near the reserved name: only "xml" itself (in any case) is reserved
+    target = rnd.choice(["pa", "pb", "pa", "pb", "xml-stylesheet", "xmlx", "XmLfoo", "xm", "x", "axml"])
     if rnd.random() < 0.4:
         return ("pi", target, None)
     data = [rnd.choice([120, 32, 60, 38, 62, 233]) for _ in range(1 + rnd.randrange(3))]
@@ -725,3 +727,23 @@ def wrap_fragment(toks):
     w1 = tok("stag", [part("lit", "<"), part("ename", "wrapper"), part("lit", ">")], px="", ln="wrapper")
     w2 = tok("etag", [part("lit", "</"), part("ename", "wrapper"), part("lit", ">")], px="", ln="wrapper")
     return [w1] + toks + [w2]
+
+
+def scope_exit_docs():
+    """documents in which a binding made (or shadowed) on an inner element must be gone again behind it:
+    a[p=u1] / ( b[decls]( content ) , y ) with y (or its attribute) needing the OUTER binding of p, and content an element
+    without anything of its own (the empty-element tag and the start/end tag pair are spellings of the same thing)"""
+    docs = []
+    E = lambda ns, ln, decls=(), attrs=(), kids=(): {"ns": ns, "ln": ln, "decls": list(decls), "attrs": list(attrs), "kids": list(kids)}
+    for bdecl in ([("p", "u2")], [("", "u2")], [("q", "u2")], [("p", "u2"), ("q", "u1")], []):
+        inner_ns = "u2" if ("", "u2") in bdecl else ""
+        for content in ("none", "bare", "bare-text", "attr", "nested"):
+            kids = {"none": [], "bare": [E(inner_ns, "c")], "bare-text": [E(inner_ns, "c"), ("text", [120])],
+                    "attr": [E(inner_ns, "c", attrs=[("", "a", [118])])],
+                    "nested": [E(inner_ns, "c", kids=[E(inner_ns, "c")])]}[content]
+            for tail in ("elem", "attr", "both"):
+                y = E("u1" if tail in ("elem", "both") else "", "b", attrs=[("u1", "a", [118])] if tail in ("attr", "both") else [])
+                b = E(inner_ns if bdecl else "", "b", decls=bdecl, kids=kids)
+                root = E("", "a", decls=[("p", "u1")], kids=[b, y])
+                docs.append({"before": [], "root": root, "after": []})
+    return docs
